@@ -380,8 +380,9 @@ var (
 			NewListType(ast.Variable{"X"}), ast.Variable{"X"}, NewListType(ast.Variable{"X"})),
 		MatchPair: NewRelType(
 			NewPairType(ast.Variable{"X"}, ast.Variable{"Y"}), ast.Variable{"X"}, ast.Variable{"Y"}),
+		// Note: :match_entry with a map-typed first argument is treated specially, the following type is only a fallback.
 		MatchEntry: NewRelType(
-			NewMapType(ast.AnyBound, ast.AnyBound), ast.AnyBound),
+			NewMapType(ast.AnyBound, ast.AnyBound), ast.AnyBound, ast.AnyBound),
 		// Note: :match_field is treated specially, the following type is only a fallback.
 		MatchField: NewRelType(
 			ast.AnyBound, ast.NameBound, ast.AnyBound),
